@@ -7,8 +7,8 @@ import (
 	"encoding/binary"
 	"fmt"
 
-	e2types "github.com/wealdtech/go-eth2-types/v2"
 	pb "github.com/wealdtech/eth2-signer-api/pb/v1"
+	e2types "github.com/wealdtech/go-eth2-types/v2"
 )
 
 // Domain types (first four bytes of a 32-byte domain).
